@@ -105,6 +105,13 @@ type c26Case struct {
 	via      string // "direct" or "request"
 	request  []string
 	emitted  map[string]bool // user strings that must appear in the text
+	// queries over several metrics (PromQL name matchers): no single metric, explicit id lists
+	noMetric              bool
+	metricsIn, metricsOut []int32
+}
+
+func (c *c26Case) raw(x int) bool {
+	return !c.noMetric && x < len(c.metric.Tags) && c.metric.Tags[x].Raw()
 }
 
 func c26Metric(rnd *rand.Rand) *format.MetricMetaValue {
@@ -390,6 +397,29 @@ func TestVerifC26(t *testing.T) {
 			}
 			if rnd.IntN(2) == 0 {
 				c26GenDirect(rnd, c)
+				if rnd.IntN(8) == 0 { // several metrics: metric id lists instead of one metric
+					c.noMetric = true
+					c.pq.metric = nil
+					ids := rnd.Perm(6)
+					nIn := rnd.IntN(4)
+					nOut := rnd.IntN(3)
+					if nIn == 1 { // a single matching metric is handled as "the" metric; exclusions are resolved before
+						nOut = 0
+					}
+					if nIn+nOut == 0 {
+						nIn = 2
+					}
+					for k := 0; k < nIn; k++ {
+						id := int32(2000 + ids[k])
+						c.metricsIn = append(c.metricsIn, id)
+						c.pq.filterIn.Metrics = append(c.pq.filterIn.Metrics, &format.MetricMetaValue{MetricID: id})
+					}
+					for k := nIn; k < nIn+nOut; k++ {
+						id := int32(2000 + ids[k])
+						c.metricsOut = append(c.metricsOut, id)
+						c.pq.filterNotIn.Metrics = append(c.pq.filterNotIn.Metrics, &format.MetricMetaValue{MetricID: id})
+					}
+				}
 			} else if err := c26GenRequest(rnd, c, h, known); err != nil {
 				w.Count("request.refused", 1) // e.g. unknown comment of a raw tag, value refused by the API
 				continue
@@ -397,7 +427,7 @@ func TestVerifC26(t *testing.T) {
 			step := []int64{1, 5, 60, 900, 3600, 86400, _1M}[rnd.IntN(7)]
 			from := int64(1700000000) + rnd.Int64N(1000000)
 			c.lod = data_model.LOD{FromSec: from, ToSec: from + step*int64(1+rnd.IntN(100)), StepSec: step, Version: data_model.Version6, Location: []*time.Location{time.UTC, time.FixedZone("MSK", 10800)}[rnd.IntN(2)]}
-			c.lod.HasPreKey = c.metric.PreKeyFrom != 0 && rnd.IntN(4) == 0
+			c.lod.HasPreKey = !c.noMetric && c.metric.PreKeyFrom != 0 && rnd.IntN(4) == 0
 			c.settings = []string{"", " SETTINGS max_threads=1", " SETTINGS optimize_aggregation_in_order=1,max_execution_time=30"}[rnd.IntN(3)]
 			c26Judge(r, w, c, i)
 		}
@@ -499,8 +529,7 @@ func c26Judge(r *verifkit.Run, w *verifkit.Worker, c *c26Case, i int) {
 	for _, fs := range []*[format.MaxTags]c26Filter{&c.in, &c.out} {
 		for x := range fs {
 			f := &fs[x]
-			raw := x < len(c.metric.Tags) && c.metric.Tags[x].Raw()
-			if !f.present || raw {
+			if !f.present || c.raw(x) {
 				continue
 			}
 			if f.reSet {
@@ -519,7 +548,7 @@ func c26Judge(r *verifkit.Run, w *verifkit.Worker, c *c26Case, i int) {
 	}
 	var qs []built
 	bad := func(key, what, kind, body string, extra map[string]any) {
-		m := map[string]any{"builder": kind, "sql": body, "via": c.via, "request_filters": c.request, "filter_in": c26Describe(&c.in), "filter_not_in": c26Describe(&c.out)}
+		m := map[string]any{"builder": kind, "sql": body, "via": c.via, "request_filters": c.request, "metric_ids_in": c.metricsIn, "metric_ids_not_in": c.metricsOut, "filter_in": c26Describe(&c.in), "filter_not_in": c26Describe(&c.out)}
 		for k, v := range extra {
 			m[k] = v
 		}
@@ -550,6 +579,9 @@ func c26Judge(r *verifkit.Run, w *verifkit.Worker, c *c26Case, i int) {
 		}
 		w.Case(special, q.body)
 		w.Count("queries."+q.kind, 1)
+		if c.noMetric {
+			w.Count("queries.over_several_metrics", 1)
+		}
 		if w.Index == 0 && i < 2 && q.kind == "series" {
 			r.Sample(map[string]any{"sql": q.body, "via": c.via, "request_filters": c.request})
 		}
@@ -712,6 +744,17 @@ func c26JudgeRows(r *verifkit.Run, w *verifkit.Worker, c *c26Case, kind string, 
 		if !metricOK {
 			mid++
 		}
+		if c.noMetric {
+			cand := append(append([]int32{2000 + int32(rnd.IntN(7))}, c.metricsIn...), c.metricsOut...)
+			mid = int64(cand[rnd.IntN(len(cand))])
+			metricOK = len(c.metricsIn) == 0
+			for _, id := range c.metricsIn {
+				metricOK = metricOK || int64(id) == mid
+			}
+			for _, id := range c.metricsOut {
+				metricOK = metricOK && int64(id) != mid
+			}
+		}
 		row["metric"] = c26Val{k: 'i', i: mid}
 		for x := 0; x < format.MaxTags; x++ {
 			row[c26TagCol[x]] = c26Val{k: 'i', i: ints[x]}
@@ -720,7 +763,7 @@ func c26JudgeRows(r *verifkit.Run, w *verifkit.Worker, c *c26Case, kind string, 
 		row["_shard_num"] = c26Val{k: 'i', i: 1}
 		// raw64: the 64-bit value lives in tag x (low) and tag x+1 (high)
 		val := func(x int) int64 {
-			if x < len(c.metric.Tags) && c.metric.Tags[x].Raw64() {
+			if !c.noMetric && x < len(c.metric.Tags) && c.metric.Tags[x].Raw64() {
 				v := ints[x]
 				row[c26TagCol[x]] = c26Val{k: 'i', i: int64(int32(uint32(v)))}
 				row[c26TagCol[x+1]] = c26Val{k: 'i', i: int64(int32(uint32(v >> 32)))}
@@ -733,7 +776,7 @@ func c26JudgeRows(r *verifkit.Run, w *verifkit.Worker, c *c26Case, kind string, 
 		badRe := false
 		for x := 0; x < format.MaxTags; x++ {
 			iv := val(x)
-			raw := x < len(c.metric.Tags) && c.metric.Tags[x].Raw()
+			raw := c.raw(x)
 			if c.in[x].present {
 				m, err := c.in[x].matches(iv, strs[x], raw, re)
 				if err != nil {
